@@ -177,12 +177,12 @@ func r133(c *Ctx, r *R) {
 		}
 		// dests recorded from BlockAllocate and used for the block adder
 		var alloc *ssa.Call
-		for _, ci := range findCalls(add, false, "adder.BlockAllocate") {
-			alloc, _ = ci.(*ssa.Call)
+		for _, dc := range findCallsDeep(add, "adder.BlockAllocate") { // in Add or a helper extracted from it
+			alloc, _ = dc.Inner.(*ssa.Call)
 		}
 		okRec, okBA := false, false
 		if alloc != nil {
-			instrs(add, func(i ssa.Instruction) {
+			instrsDeep(add, func(i ssa.Instruction) {
 				if st, ok := i.(*ssa.Store); ok {
 					if fl, _ := fieldOfAddrValue(st.Addr); fl != nil && fl.Name() == "dests" {
 						if cc, idx := originCall(st.Val); cc == alloc && idx == 0 {
@@ -196,7 +196,8 @@ func r133(c *Ctx, r *R) {
 			// the value chosen beforehand, or one call per case)
 			isLocal := func(g Guard) bool { return gField(g, "local", true) }
 			nAlloc, nOther := 0, 0
-			for _, ci := range findCalls(add, false, "adder.NewBlockAdder") {
+			for _, dc := range findCallsDeep(add, "adder.NewBlockAdder") {
+				ci := dc.Inner
 				for _, lf := range valueLeaves(ci.Common().Args[1], ci.Block()) {
 					if cc, idx := originCall(lf.Val); cc == alloc && idx == 0 {
 						nAlloc++
@@ -396,7 +397,7 @@ func r135(c *Ctx, r *R) {
 }
 
 func init() {
-	register(&Rule{ID: "R13.6", Props: []string{"C13"}, Floor: 5, Title: "every DAG node the importer creates, and every builder it configures, uses the requested CID builder (version/hash): siblings agree", Run: r136})
+	register(&Rule{ID: "R13.6", Props: []string{"C13"}, Floor: 3, Title: "every DAG node the importer creates, and every builder it configures, uses the requested CID builder (version/hash): siblings agree", Run: r136})
 }
 
 func r136(c *Ctx, r *R) {
